@@ -232,11 +232,12 @@ def mapping(ctx: Ctx, rule="R-C07-MAP") -> None:
               "result": ("RESULT_CLASS", {"id_": "self.result_id", "ttl": "self.result_ttl"})}
     for k, (cls_attr, m) in nested.items():
         v = C.inline_locals(f, kw.get(k), calls="all") if kw.get(k) is not None else None
-        calls = [c for c in ast.walk(v) if isinstance(c, ast.Call) and isinstance(c.func, ast.Attribute) and c.func.attr == cls_attr] if v is not None else []
-        if not ctx.check(len(calls) == 1, rule, f, f"parameters {k} built with {cls_attr}", cls_attr, f"Job parameters {k} is {unparse(v)[:60] if v is not None else '<default>'}", node=pc[0],
+        cons = C.constructions(ctx, f, [v], cls_attr) if v is not None else []
+        if not ctx.check(len(cons) == 1, rule, f, f"parameters {k} built with {cls_attr}", cls_attr, f"Job parameters {k} is {unparse(v)[:60] if v is not None else '<default>'}", node=pc[0],
                          instance=f"parameters {k} class"):
             continue
-        kk = {x.arg: x.value for x in calls[0].keywords}
+        calls = [cons[0][0]]
+        kk = cons[0][1]
         for a, src in m.items():
             ctx.check(dotted(kk.get(a)) == src, rule, f, f"{k}.{a} <- {src}", src, f"Job parameters {k}.{a}={unparse(kk.get(a)) if a in kk else '<default>'} instead of {src}", node=calls[0],
                       instance=f"parameters {k}.{a}")
@@ -487,15 +488,34 @@ def alphabet(ctx: Ctx, rule="R-C07-ALPHABET") -> None:
                 ctx.check(c.func.attr == "fullmatch", rule, fn, f"{unparse(c)[:50]} in {fn.short()}", "whole string validated",
                           f"{fn.short()} validates with {dotted(c.func.value)}.{c.func.attr}(): only a prefix is checked, the rest of the name may contain ':'", node=c,
                           instance=f"{fn.short()}: {dotted(c.func.value)}.{c.func.attr}({unparse(c.args[0]) if c.args else ''})")
-    ctx.floor(rule, users, 8, "validator uses")
     rk = ctx.func("repid.data._key.RoutingKey.__post_init__")
     checked = {unparse(c.args[0]): dotted(c.func.value) for c in ast.walk(rk.node) if isinstance(c, ast.Call) and isinstance(c.func, ast.Attribute) and c.func.attr == "fullmatch"}
+    # table-driven form: for pattern, value, ... in ((VALID_ID, self.id_, ...), ...): if pattern.fullmatch(value) is None: raise
+    for tgt, it, body, node in C.iterations(rk):
+        rows = C.inline_locals(rk, it)
+        if isinstance(tgt, ast.Tuple) and isinstance(rows, (ast.Tuple, ast.List)) and all(isinstance(r_, ast.Tuple) for r_ in rows.elts):
+            names = [dotted(e) for e in tgt.elts]
+            for c in [c for b in body for c in ast.walk(b) if isinstance(c, ast.Call) and isinstance(c.func, ast.Attribute) and c.func.attr == "fullmatch"]:
+                pv, vv = dotted(c.func.value), dotted(c.args[0]) if c.args else None
+                if pv in names and vv in names:
+                    raises = any(isinstance(x, ast.Raise) for b in body for x in ast.walk(b))
+                    checked.pop(vv, None)
+                    if raises:
+                        for r_ in rows.elts:
+                            checked[unparse(r_.elts[names.index(vv)])] = dotted(r_.elts[names.index(pv)])
+    ctx.floor(rule, users + sum(1 for v in checked.values() if v in ("VALID_NAME", "VALID_ID")), 8, "validator uses")
     want = {"self.id_": "VALID_ID", "self.topic": "VALID_NAME", "self.queue": "VALID_NAME"}
     ctx.check(checked == want, rule, rk, "RoutingKey validates id_, topic and queue", str(want), f"RoutingKey.__post_init__ validates {checked}", instance="RoutingKey validation")
     g = ctx.cfg(rk)
     for t in [n for n in g.nodes if n.kind == "test" and "fullmatch" in n.label]:
-        succ_t = flow.reach(g, [t.id], ("T",))
-        ok = isinstance(t.ast, ast.UnaryOp) and isinstance(t.ast.op, ast.Not) and any(g.nodes[i].kind in ("call", "raise") for i in succ_t | flow.reach(g, succ_t, ("n", "raise")))
+        # the branch taken when the match fails must raise
+        fail_env = {"*m": lambda text, node: (False if isinstance(node, ast.Call) and isinstance(node.func, ast.Attribute) and node.func.attr == "fullmatch" else
+                                               (True if isinstance(node, ast.Compare) and isinstance(node.left, ast.Call) and isinstance(node.left.func, ast.Attribute)
+                                                and node.left.func.attr == "fullmatch" and isinstance(node.ops[0], ast.Is) and C.is_const(node.comparators[0], None) else None))}
+        v = flow.eval_cond(t.ast, fail_env, rk)
+        branch = "T" if v is True else ("F" if v is False else None)
+        succ_t = flow.reach(g, [t.id], (branch,)) if branch else set()
+        ok = branch is not None and any(g.nodes[i].kind == "raise" for i in succ_t | flow.reach(g, succ_t, ("n", "raise")))
         ctx.check(ok, rule, rk, f"`{t.label[:50]}` -> raise", "invalid value rejected", f"RoutingKey: `{t.label[:60]}` does not reject an invalid value", instance=f"RoutingKey: {t.label[:40]}")
     # split / join agreement in redis utils
     u = ctx.prog.module("repid.connections.redis.utils")
